@@ -144,7 +144,8 @@ class Session:
             self.dev.energy = bytes.fromhex(cfg["energy"])
         if "humidity_data" in cfg:
             self.dev.humidity = bytes.fromhex(cfg["humidity_data"])
-        self.world.net.listen(HOST, PORT, self.dev)
+        self.host = cfg.get("host", HOST)          # e.g. an IPv6 literal
+        self.world.net.listen(self.host, PORT, self.dev)
         self.clients = []
         self.outcomes = []
         # an unrelated second device with its own client object, polled and set by a background task while the
@@ -173,7 +174,7 @@ class Session:
         ns = self.world.ns
         n = self.cfg.get("clients", 1)
         for _ in range(n):
-            self.clients.append(ns.AC(ip=HOST, port=PORT, device_id=self.device_id))
+            self.clients.append(ns.AC(ip=self.host, port=PORT, device_id=self.device_id))
         if self.dev2 is not None and self.by_task is None:
             self.by_client = ns.AC(ip=HOST2, port=PORT, device_id=self.dev2.device_id)
             self.by_task = self.world.loop.create_task(self._bystander())
